@@ -726,6 +726,27 @@ func bitIndexForm(v ssa.Value) (string, int64, bool) {
 	v = stripConv(v)
 	bo, ok := v.(*ssa.BinOp)
 	if !ok {
+		// the index computed by a helper of one return statement (i, mask := bitmapIndex(pos)): its result expression
+		// with the parameters replaced by the arguments
+		if c, ri, isCall := callOfValue(v); isCall {
+			g := c.Call.StaticCallee()
+			if g != nil && !c.Call.IsInvoke() && len(g.Blocks) == 1 && fnPkg(g) != nil && core.InModule(fnPkg(g)) {
+				if ret, isRet := lastInstr(g.Blocks[0]).(*ssa.Return); isRet && ri < len(ret.Results) {
+					if hb, isBo := stripConv(ret.Results[ri]).(*ssa.BinOp); isBo {
+						d := linOf(hb.Y)
+						if d.isConst() && ((hb.Op == token.QUO && d.C == 8) || (hb.Op == token.SHR && d.C == 3)) {
+							if n, okS := substParams(linOf(hb.X), g, c.Call.Args); okS && len(n.T) == 1 {
+								for a, cf := range n.T {
+									if cf == 1 {
+										return a, n.C, true
+									}
+								}
+							}
+						}
+					}
+				}
+			}
+		}
 		return "", 0, false
 	}
 	d := linOf(bo.Y)
@@ -754,7 +775,17 @@ func isRecvByteSliceField(fn *ssa.Function, v ssa.Value) bool {
 		return false
 	}
 	fa, ok := u.X.(*ssa.FieldAddr)
-	if !ok || fa.X != ssa.Value(fn.Params[0]) {
+	if !ok {
+		return false
+	}
+	// the field itself, or a field of a struct embedded (by value) in the receiver: w.buf == w.binaryBuffer.buf
+	root := fa.X
+	for i := 0; i < 3; i++ {
+		if inner, isFA := root.(*ssa.FieldAddr); isFA {
+			root = inner.X
+		}
+	}
+	if root != ssa.Value(fn.Params[0]) {
 		return false
 	}
 	sl, ok := u.Type().Underlying().(*types.Slice)
